@@ -286,22 +286,31 @@ func (fg *FG) instr(st *State, in ssa.Instruction) {
 			// the pointee stands in for it, and is copied back after the call that receives it
 			// (sound for callees that neither retain the pointer nor reach the pointee another way)
 			el := x.X.Type().(*types.Pointer).Elem()
-			if _, isS := structOf(el); isS {
-				fg.fail("interior struct address converted to interface")
-			}
 			if _, isA := types.Unalias(el).Underlying().(*types.Array); isA {
 				fg.fail("interior array address converted to interface")
 			}
 			r := fg.allocRef(st)
 			fg.assume(fmt.Sprintf("(> %s 0)", r))
-			fam, csrt := fg.cellFamily(el)
-			fg.heapSort[fam] = csrt
-			cell := &Loc{Kind: LCell, Heap: fam, Ref: r, Ty: el}
-			fg.store(st, cell, fg.load(st, a.Loc))
 			if fg.copyOut == nil {
-				fg.copyOut = map[ssa.Value]copyOutInfo{}
+				fg.copyOut = map[ssa.Value][]copyOutInfo{}
 			}
-			fg.copyOut[x] = copyOutInfo{orig: a.Loc, cell: cell}
+			if sst, isS := structOf(el); isS {
+				// an embedded struct: a fresh object holding a copy of its fields stands in for it
+				obj := &Loc{Kind: LObj, Ref: r, Ty: el}
+				for i := 0; i < sst.NumFields(); i++ {
+					dst := fg.fieldLoc(obj, el, sst, i)
+					src := fg.fieldLoc(a.Loc, el, sst, i)
+					fg.store(st, dst, fg.load(st, src))
+					fg.copyOut[x] = append(fg.copyOut[x], copyOutInfo{orig: src, cell: dst})
+				}
+				fg.ghostDefaults(st, r)
+			} else {
+				fam, csrt := fg.cellFamily(el)
+				fg.heapSort[fam] = csrt
+				cell := &Loc{Kind: LCell, Heap: fam, Ref: r, Ty: el}
+				fg.store(st, cell, fg.load(st, a.Loc))
+				fg.copyOut[x] = append(fg.copyOut[x], copyOutInfo{orig: a.Loc, cell: cell})
+			}
 			a = Val{T: r, Ty: x.X.Type()}
 		}
 		srt := fg.sorts.sortOf(x.X.Type())
